@@ -14,6 +14,7 @@ import Restful.Model.Conc
 import Restful.Gen.Facts
 import Restful.Lemmas.Panic
 import Restful.Lemmas.StateShape
+import Restful.Lemmas.TieImpFilters
 namespace Restful
 namespace Props
 open Gen Conc
@@ -120,3 +121,7 @@ end C19Example
 
 end Props
 end Restful
+
+-- the imperative functions this property's model rests on, tied to their statement-by-statement
+-- translation (tools/goimp, Gen/Imp.lean, regenerated on every run):
+-- also: Restful.TieImp.cors_filter
